@@ -13,6 +13,10 @@ feature enabled: fact configuration B).
                       registry) must skip exactly the reviewed field lists; UtxoId uses its hand-written
                       CompressedUtxoId. A new `compress(skip)` on an id-relevant field of a fully derived type would
                       come back as Default and change the id for all transactions — reported here.
+  (C03) TAB-malleable / DOM-id   the other half of TAB-skip-safe: the fields prepare_sign zeroes are exactly the
+                      specification's malleable sets, and every id() — ChargeableTransaction through prepare_sign of its
+                      body / inputs / outputs, Mint::id through its contract input *and* output — zeroes them on the
+                      clone before hashing. Re-run here from props/C03.py and reported under their C03 rule names.
   DELEG-variants      Transaction / Input / Output compress and decompress variant-by-variant (CompressedX has the
                       same variants as X).
 Not decided: registry key allocation and wrap-around histories (RegistryKey::next arithmetic over time), value equality of
@@ -33,6 +37,46 @@ CONTEXT_RESTORED = {
 }
 HANDWRITTEN = {T + "utxo_id::UtxoId": "compresses to CompressedUtxoId {tx_pointer, output_index} by hand (the tx id is replaced by the pointer of the creating transaction)"}
 MARKERS = {T + "input::Empty": {"0"}}
+
+
+class Forward:
+    """Report adaptor: forwards the named rules of another property's module into this report."""
+
+    def __init__(self, rep, keep):
+        self.rep, self.keep = rep, keep
+
+    def rule(self, name, desc):
+        if name in self.keep:
+            self.rep.rule(name, "(C03) " + desc)
+
+    def ok(self, rule, key, detail=None):
+        if rule in self.keep:
+            self.rep.ok(rule, key, detail)
+
+    def bad(self, rule, key, where=None, detail=None):
+        if rule in self.keep:
+            self.rep.bad(rule, key, where, detail)
+
+    def check(self, cond, rule, key, where=None, detail=None):
+        if rule in self.keep:
+            self.rep.check(cond, rule, key, where, detail)
+        return cond
+
+    def floor(self, rule, what, count, minimum):
+        if rule in self.keep:
+            self.rep.floor(rule, what, count, minimum)
+
+    def note(self, text):
+        pass
+
+    def sample(self, s):
+        pass
+
+    def saw(self, n):
+        self.rep.saw(n)
+
+    def anchor_missing(self, text):
+        self.rep.anchor_missing(text)
 
 
 def malleable_of(ty):
@@ -128,3 +172,4 @@ def run(F, rep, tier, allfacts):
                 else:
                     rep.check(skipped == want, "TAB-skip-safe", vk + ":context-restored-fields", where, "skipped %s; reviewed context-restored list %s" % (sorted(skipped), sorted(want)))
     rep.floor("SIB-skip-agreement", "T/CompressedT pairs", npairs, 24)
+    C03.run(F, Forward(rep, {"TAB-malleable", "DOM-id"}), tier, allfacts)
